@@ -54,6 +54,22 @@ ChainSheet == << <<"class", "k1", <<<<"fill", "red">>>>>>, <<"class", "k2", <<<<
 Mk(k, d, sh, cc) == kind = k /\ doc = d /\ sheet = sh /\ callerColor = cc
                     /\ out = RenderDoc(d, <<<<>>, <<>>, 0>>, DP!Paint0(cc, sh))
 NoPaint == <<<<>>, <<>>, <<>>>>
+\* the winner depends only on the set of sources, never on the rule order
+Winner(S, p) == IF "inline" \in S THEN "inline" ELSE IF "id" \in S THEN "id" ELSE IF "typeclass" \in S THEN "typeclass"
+                ELSE IF "class" \in S THEN "class" ELSE IF "type" \in S THEN "type" ELSE IF "*" \in S THEN "*"
+                ELSE IF "attr" \in S THEN "attr" ELSE "default"
+\* display is an ordinary cascaded property (not inherited, but display:none removes the whole subtree): the document is
+\* written with display set through the chosen sources, the rendering is computed with the cascaded value
+DispOf(sh, tok) == DP!Val(sh, tok, "display", "inline") = "none"
+WithDisp(d, sh) == [i \in 1..Len(d) |-> IF d[i][1] = "end" THEN d[i] ELSE [d[i] EXCEPT ![4] = DispOf(sh, d[i])]]
+MkD(k, d, sh, cc) == kind = k /\ doc = d /\ sheet = sh /\ callerColor = cc
+                     /\ out = RenderDoc(WithDisp(d, sh), <<<<>>, <<>>, 0>>, DP!Paint0(cc, sh))
+DispRule(src, v) == CASE src = "*" -> <<"type", "g", <<<<"display", v>>>>>>      \* (a universal rule would hide the root: a type rule for g stands in)
+                      [] src = "type" -> <<"type", "rect", <<<<"display", v>>>>>>
+                      [] src = "class" -> <<"class", "k", <<<<"display", v>>>>>>
+                      [] src = "typeclass" -> <<"typeclass", <<"rect", "k">>, <<<<"display", v>>>>>>
+                      [] src = "id" -> <<"id", "r", <<<<"display", v>>>>>>
+Other(v) == IF v = "none" THEN "inline" ELSE "none"
 Init ==
   \/ \E p \in Props, S \in SUBSET Sources, order \in {"asc", "desc"} :
         Mk("sources",
@@ -100,12 +116,30 @@ Init ==
         IN Mk("vector",
               <<root, <<"g", "", gtf, FALSE, <<>>, NoPaint>>>> \o (IF nested THEN <<inner>> ELSE <<>>) \o <<rect>> \o (IF nested THEN <<E0>> ELSE <<>>) \o <<E0, E0>>,
               IF ve = "rule" THEN <<<<"id", "r", <<<<"vector-effect", "non-scaling-stroke">>>>>>>> ELSE <<>>, "black")
+  \/ \E S \in (SUBSET (Sources \ {"*"})) \ {{}}, wv \in {"none", "inline"}, order \in {"asc", "desc"} :
+        \* the strongest source present says wv, every other source says the opposite
+        LET W == Winner(S, "display")
+            val(src) == IF src = W THEN wv ELSE Other(wv)
+            sel == SelectSeq(RuleSources, LAMBDA x : x \in S)
+            rules == [i \in 1..Len(sel) |-> DispRule(sel[i], val(sel[i]))]
+        IN MkD("display",
+               <<Root, <<"rect", "r", 0, FALSE, RectGeo,
+                         <<(IF "attr" \in S THEN <<<<"display", val("attr")>>>> ELSE <<>>), <<"k">>,
+                           (IF "inline" \in S THEN <<<<"display", val("inline")>>>> ELSE <<>>)>>>>,
+                 <<"circle", "b", 1, FALSE, <<A(5), A(6), A(7)>>, NoPaint>>, E0>>,
+               IF order = "asc" THEN rules ELSE Rev(rules), "black")
+  \/ \E gsrc \in {"attr", "inline", "rule"}, child \in {"none", "attr_inline", "style_inline"} :
+        \* display:none on a container hides its subtree whatever the children say
+        MkD("display",
+            <<Root, <<"g", "h", 0, FALSE, <<>>,
+                      <<(IF gsrc = "attr" THEN <<<<"display", "none">>>> ELSE <<>>), <<>>, (IF gsrc = "inline" THEN <<<<"display", "none">>>> ELSE <<>>)>>>>,
+              <<"rect", "r", 0, FALSE, RectGeo,
+                <<(IF child = "attr_inline" THEN <<<<"display", "inline">>>> ELSE <<>>), <<>>, (IF child = "style_inline" THEN <<<<"display", "inline">>>> ELSE <<>>)>>>>,
+              E0, <<"circle", "b", 1, FALSE, <<A(5), A(6), A(7)>>, NoPaint>>, E0>>,
+            IF gsrc = "rule" THEN <<<<"id", "h", <<<<"display", "none">>>>>>>> ELSE <<>>, "black")
 Next == UNCHANGED vars
 
 \* ---- laws of the specification ---------------------------------------------
-OneShape == Len(out) = 1
-\* the winner depends only on the set of sources, never on the rule order
-Winner(S, p) == IF "inline" \in S THEN "inline" ELSE IF "id" \in S THEN "id" ELSE IF "typeclass" \in S THEN "typeclass"
-                ELSE IF "class" \in S THEN "class" ELSE IF "type" \in S THEN "type" ELSE IF "*" \in S THEN "*"
-                ELSE IF "attr" \in S THEN "attr" ELSE "default"
+OneShape == kind # "display" => Len(out) = 1
+DisplayLaw == kind = "display" => (Len(out) \in {1, 2} /\ out[Len(out)][5] = "b")
 =============================================================================
